@@ -329,7 +329,7 @@ theorem fitsT_core (c : Cfg) (n : BNode) (core : Ty) (hno : NotOpt core) (h : c1
     | ign => exact .ign
     | _ => simp at h
 theorem fitsT_stF (c : Cfg) (fs : BFields) (decl : Fields) (h : c10St c decl fs = true) :
-    ∀ k o v, (k, o, v) ∈ docFieldsN c fs → ∀ i t, TextDe.lookupIdx (TextDe.decode .w1252 k) (trFields decl) 0 = some (i, t) →
+    ∀ k o v, (k, o, v) ∈ docFieldsN c fs → ∀ i t, TextDe.lookupIdx (TextDe.decode .w1252 k.bytes) (trFields decl) 0 = some (i, t) →
       FitsT .w1252 true t v := by
   cases fs with
   | nil => intro k o v hm; simp [docFieldsN] at hm
@@ -342,13 +342,13 @@ theorem fitsT_stF (c : Cfg) (fs : BFields) (decl : Fields) (h : c10St c decl fs 
     · obtain ⟨kb, hkb, hkey, _⟩ := keyOK_text c key hk
       simp only [Prod.mk.injEq, hkb, Option.getD_some] at hm
       obtain ⟨rfl, rfl, rfl⟩ := hm
-      have hwb : whichOf (binSem c) decl key = .ok (decl.posName (decode1252 k) 0) := by
-        have : whichOf (textSem c) decl key = .ok (decl.posName (decode1252 k) 0) := by simp [whichOf, hkey, fieldOfPrim]
+      have hwb : whichOf (binSem c) decl key = .ok (decl.posName (decode1252 kb) 0) := by
+        have : whichOf (textSem c) decl key = .ok (decl.posName (decode1252 kb) 0) := by simp [whichOf, hkey, fieldOfPrim]
         rw [← this]; unfold whichOf; rw [keyOK_agree c key hk]
       rw [hwb] at hv
       rw [← decode1252_eq] at hl
-      obtain ⟨la1, la2⟩ := lookup_agree decl (decode1252 k) 0
-      cases hp : decl.posName (decode1252 k) 0 with
+      obtain ⟨la1, la2⟩ := lookup_agree decl (decode1252 kb) 0
+      cases hp : decl.posName (decode1252 kb) 0 with
       | none => rw [la1 hp] at hl; cases hl
       | some j =>
         obtain ⟨n, tk, t0, g1, _, _, g4⟩ := la2 j hp
